@@ -17,6 +17,7 @@ Streams
   roundtrip  a file written by a loguru handler, parsed back with a regex mirroring its format,
            recovers every record in order (all chunk sizes in a sample)
 """
+import gc
 import io
 import json
 import os
@@ -24,6 +25,7 @@ import pathlib
 import re
 import shutil
 import tempfile
+import time
 
 from harness import core
 from harness.core import enc
@@ -62,7 +64,8 @@ def parse_fn():
 
 # ----------------------------------------------------------------------------- cast specs
 def mk_cast(spec):
-    """spec: ["none"] | ["dict", [[key, j], …]] | ["fn"]  ->  (cast argument or None, pure function on a dict)"""
+    """spec: ["none"] | ["dict"|"dictsub", [[key, j], …]] | ["fn"|"fnret"|"callobj"]
+    ->  (cast argument or None, pure function on a dict)"""
     if spec[0] == "none":
         return None, lambda g: g
     if spec[0] == "dict":
@@ -77,18 +80,55 @@ def mk_cast(spec):
                     g[key] = c(g[key])
             return g
         return conv, pure
-    if spec[0] == "fn":
+    if spec[0] == "dictsub":
+        # a dict subclass (collections.OrderedDict) whose converters are callable objects / builtins
+        import collections
+        conv = collections.OrderedDict()
+        for key, j in spec[1]:
+            conv[key] = Tagger(j) if j % 2 else repr
+
+        def pure(g):
+            g = dict(g)
+            for key, c in conv.items():
+                if key in g:
+                    g[key] = c(g[key])
+            return g
+        return conv, pure
+    if spec[0] in ("fn", "fnret", "callobj"):
         def fn(g):
             for key in sorted(g):
                 g[key] = ("f", g[key])
             g["_n"] = len(g)
+            if spec[0] == "fnret":          # the documented contract is IN PLACE: a returned value is ignored
+                return {"returned": "ignored"}
+            return None
 
         def pure(g):
             g = dict(g)
             fn(g)
             return g
-        return fn, pure
+        return (CallableCast(fn) if spec[0] == "callobj" else fn), pure
     raise ValueError(spec)
+
+
+class Tagger:
+    """a converter that is a callable object, not a function"""
+
+    def __init__(self, j):
+        self.j = j
+
+    def __call__(self, v):
+        return (self.j, v)
+
+
+class CallableCast:
+    """a `cast` that is a callable object (neither a function nor a dict)"""
+
+    def __init__(self, fn):
+        self.fn = fn
+
+    def __call__(self, groups):
+        return self.fn(groups)
 
 
 # ----------------------------------------------------------------------------- sources
@@ -205,9 +245,23 @@ def content_for(kind, text, wd):
     raise ValueError(kind)
 
 
-def run_parse(src, rx, k, cast):
+def compiled_variant(pat):
+    """the same regex as a compiled pattern object; a leading inline `(?m)` / `(?s)` becomes a flag argument
+    of re.compile (so the flags live only in the pattern object)"""
+    flags = 0
+    lead = {"(?m)": re.M, "(?s)": re.S}
+    for k, f in lead.items():
+        kk = k.encode() if isinstance(pat, bytes) else k
+        if pat.startswith(kk):
+            return re.compile(pat[len(kk):], flags | f)
+    return re.compile(pat)
+
+
+def run_parse(src, rx, k, cast, compiled=False):
     try:
         kw = {} if cast is None else {"cast": cast}
+        if compiled:
+            rx = compiled_variant(rx)
         return ("ok", list(parse_fn()(src, rx, chunk=k, **kw)))
     except Exception as e:  # noqa
         return ("err", core.err_kind(e) + ": " + str(e)[:80])
@@ -379,6 +433,7 @@ ADV_RX = [r"(?P<x>a+)", r"(?P<x>a+b?)", r"(?P<x>a*)", r"(?<=a)(?P<b>b)", r"(?P<x
           r"(?P<x>b+)(?!a)", r"(?P<q>a{2,3})", r"(?P<x>ab|b\n)", r"(?P<x>[^\n]*\n|[^\n]+)", BLOCK_RX,
           r"(?P<t>This[\s\S]*Text\n)", r"(?P<x>a)(?P<y>b)?",
           # the last match can grow although it does not reach the end of the buffer
+          r"[ab]+\n", r"(a)(?P<x>b+)",      # no / not only named groups: groupdict() is {} / partial
           CONT_RX, r"(?P<x>(?:ab)+)\n?", r"(?P<h>[ab]\n)(?P<c>(?: [^\n]*\n)*)", r"(?P<x>a(?: b)*)(?P<e>)",
           # outside the domain on purpose (look-behind / anchors at a previous match, unbounded look-ahead)
           r"(?m)(?P<y>b)|^(?P<x>a)", r"(?P<x>ab|(?<=b)c)", r"(?P<x>a)(?![\s\S]*c)", r"(?P<y>b)|\b(?P<x>a)",
@@ -420,8 +475,8 @@ def gen_cast_spec(rng, rx_c):
         return ["none"]
     if r < 8:
         keys = [n for n in names if rng.chance(60)] + (["zz_absent"] if rng.chance(40) else [])
-        return ["dict", [[k, j] for j, k in enumerate(keys)]]
-    return ["fn"]
+        return ["dictsub" if rng.chance(25) else "dict", [[k, j] for j, k in enumerate(keys)]]
+    return [rng.choice(["fn", "fn", "fnret", "callobj"])]
 
 
 def canon(v):
@@ -470,14 +525,17 @@ def judge_case(ctx, rx_src, text, is_bytes, kind, cast_spec, ks, wd, seed, strea
         src = fac()
         try:
             with OpenTracker() as trk:
-                got = run_parse(src, pat, k, cast)
+                compiled = bool(extra and extra.get("compiled")) or ((seed + k) % 4 == 0)
+                got = run_parse(src, pat, k, cast, compiled)
                 opened = list(trk.files)
                 closed = [f.closed for f in opened]
         finally:
             close_if_file(src)
         ctx.stat("parse_calls")
         rep = {"stream": stream, "pattern": rx_src, "bytes": is_bytes, "text": text, "chunk": k, "source": kind,
-               "cast": cast_spec, "seed": seed}
+               "cast": cast_spec, "seed": seed, "compiled": compiled}
+        if compiled:
+            ctx.stat("pattern_passed_compiled")
         if extra:
             rep.update(extra)
         if got != ("ok", exp):
@@ -766,7 +824,13 @@ def run_fault(case, wd):
             exc = e
             log.append("E" + core.err_kind(e).split(":")[0])
         finally:
-            gen.close()
+            if case.get("abandon"):
+                # the consumer just drops the generator: CPython finalises it (GeneratorExit at the yield)
+                d = None
+                del gen
+                gc.collect()
+            else:
+                gen.close()
         rf = orec.files[0] if orec.files else wrapped
         still_open = [f for f in orec.files if not f.inner.closed]
     caller_closed = bool(wrapped is not None and wrapped.inner is not None and wrapped.inner.closed)
@@ -786,23 +850,28 @@ def judge_fault(ctx, case, res, stream):
     before the one whose converter raised.  Returns 1 if a violation was reported."""
     log = res["log"]
     rep = dict(case, stream="fault")
-    how = ("the consumer closed the generator after %r item(s)" % case.get("limit") if case.get("limit") is not None
+    how = ("the consumer %s the generator after %r item(s)" % ("dropped" if case.get("abandon") else "closed", case.get("limit"))
+           if case.get("limit") is not None
            else "exhaustion") + ("; read #%d raises OSError" % case["fail_at"] if case.get("fail_at") else "") + \
         ("; a converter raises" if cast_is_faulty(case["cast"]) else "")
     marks = [x if isinstance(x, str) else "Y" for x in log]
     if res["opened"]:
-        # closed exactly once; afterwards nothing happens except that the exception (if any) reaches the consumer
-        if res["still_open"] or marks.count("C") != 1 or any(not m.startswith("E") for m in marks[marks.index("C") + 1:]):
+        # closed (a second close() would be harmless and is not judged here – the trace correspondence pins
+        # "exactly once"); after the first close nothing is read or yielded, only the exception reaches the consumer
+        after = marks[marks.index("C") + 1:] if "C" in marks else []
+        if res["still_open"] or "C" not in marks or any(m != "C" and not m.startswith("E") for m in after):
             ctx.violation("file opened by parse(%s, %r, chunk=%d) on %r is %s after the iteration ended (%s): events %s"
                           % (case["source"], case["pattern"], case["chunk"], case["text"],
-                             "still open" if res["still_open"] else "not closed exactly once at the end", how,
+                             "still open" if (res["still_open"] or "C" not in marks) else "used after it was closed", how,
                              "".join(m[0] for m in marks)), dict(rep, what="closed"))
             return 1
         ctx.stat("fault_closed_ok")
     elif res["caller_closed"] or "C" in marks:
-        ctx.violation("the caller's file object passed to parse(%s) was closed by the function (%s)" % (case["source"], how),
-                      dict(rep, what="caller-closed"))
-        return 1
+        # not demanded by the property text (it speaks about files the function opened): reported as a broken
+        # tie (theorem caller_file_never_opened_or_closed no longer describes the code), not as a failing input
+        ctx.stat("caller_file_closed_by_parse")
+        ctx.broke("correspondence Parse.parseTrace (caller's file object closed by parse)",
+                  "source=%s %s" % (case["source"], how))
     if case["pattern"] is None or case["cast"][0] == "invalid" or case["source"] == "other" or case.get("mismatch") \
             or case.get("missing"):
         if res["yields"]:
@@ -848,6 +917,8 @@ def gen_fault(rng, nmatches, ndata, group_names):
         case["fail_at"] = rng.range(1, ndata + 2)
         cast = ["fn", rng.range(0, max(0, nmatches)), None]
     case["cast"] = cast
+    if case["limit"] is not None and rng.chance(40):
+        case["abandon"] = True
     return case
 
 
@@ -856,8 +927,16 @@ def trace_stream(ctx, drv, rng, wd, boost):
     receives, the exception that reaches it, close) of `parse` with the line regex against `parseTrace` in the
     Lean model, over sources × casts × consumer limits × read faults × converter faults × wrong-typed
     patterns × missing files × invalid arguments; the direct oracle `judge_fault` judges the same runs."""
-    n = ctx.n(500, 8000) * boost
+    n = ctx.n(400, 8000) * boost
     lines, metas = [], []
+    wd = Workdir()          # its own scratch directory (it is emptied now and then; other streams keep files in theirs)
+    try:
+        yield from _trace_stream(ctx, rng, wd, n, lines, metas)
+    finally:
+        wd.close()
+
+
+def _trace_stream(ctx, rng, wd, n, lines, metas):
     for i in range(n):
         t = gen_model_text(rng)
         if rng.chance(40):
@@ -902,6 +981,8 @@ def trace_stream(ctx, drv, rng, wd, boost):
         else:
             case["source"] = "other"
             case["cast"] = rng.choice([["none"], ["invalid"], ["fn", None, None]])
+        if case["limit"] is not None and rng.chance(30):
+            case["abandon"] = True
         res = run_fault(case, wd)
         ctx.case(("trace", t, is_bytes, case["source"], k, json.dumps(case["cast"]), case["limit"], case["fail_at"],
                   bool(case.get("mismatch")), bool(case.get("missing")), case["pattern"] is None),
@@ -934,7 +1015,9 @@ def trace_stream(ctx, drv, rng, wd, boost):
             shutil.rmtree(wd.d, ignore_errors=True)
             os.makedirs(wd.d, exist_ok=True)
             wd.n = 0
-    out = drv.run([l.rstrip() for l in lines])
+    out = yield [l.rstrip() for l in lines]      # evaluated by the Lean driver (one invocation for all streams)
+    if out is None:
+        return
     bad = 0
     for (case, impl), o in zip(metas, out):
         if impl != o:
@@ -944,6 +1027,156 @@ def trace_stream(ctx, drv, rng, wd, boost):
                 ctx.broke("correspondence Parse.parseTrace (tie C, event traces)",
                           "case=%s implementation=%s model=%s" % (json.dumps(case, ensure_ascii=True), impl, o))
 
+
+
+# ----------------------------------------------------------------------------- several generators alive at once
+def interleaved_case(ctx, rng, a, b, wd):
+    """two `parse` generators over different (regex, text, cast) alive at the same time, advanced alternately in
+    random bursts: each must yield exactly its own whole-text result (no state shared between calls)"""
+    gens, exps, reps = [], [], []
+    for (rx_src, text, is_bytes, cast_spec, k) in (a, b):
+        pat = rx_src.encode("ascii") if is_bytes else rx_src
+        data = text.encode("utf8") if is_bytes else text
+        cast, pure = mk_cast(cast_spec)
+        kw = {} if cast is None else {"cast": cast}
+        gens.append(parse_fn()(io.BytesIO(data) if is_bytes else io.StringIO(data), pat, chunk=k, **kw))
+        exps.append(expected_for(re.compile(pat), data, pure))
+        reps.append({"pattern": rx_src, "bytes": is_bytes, "text": text, "chunk": k, "cast": cast_spec})
+    outs, alive = [[], []], [True, True]
+    bursts = []
+    err = None
+    try:
+        while any(alive):
+            i = rng.below(2)
+            if not alive[i]:
+                i = 1 - i
+            n = rng.range(1, 3)
+            bursts.append([i, n])
+            for _ in range(n):
+                try:
+                    outs[i].append(next(gens[i]))
+                except StopIteration:
+                    alive[i] = False
+                    break
+    except Exception as e:  # noqa
+        err = core.err_kind(e) + ": " + str(e)[:80]
+    ctx.stat("interleaved_pairs")
+    for i in range(2):
+        if err is not None or outs[i] != exps[i]:
+            ctx.violation("two parse() generators consumed alternately: generator %d (%r on %r, chunk=%d) yielded %r…, "
+                          "re.finditer + cast give %r…%s" % (i, reps[i]["pattern"], reps[i]["text"], reps[i]["chunk"],
+                                                           canon(outs[i])[:3], canon(exps[i])[:3], " [%s]" % err if err else ""),
+                          {"stream": "interleaved", "a": reps[0], "b": reps[1], "bursts": bursts})
+            return 1
+    return 0
+
+
+def replay_interleaved(r):
+    class FixedRng:
+        def __init__(self, bursts):
+            self.b, self.i, self.phase = bursts, 0, 0
+
+        def below(self, n):
+            return self.b[self.i][0] if self.i < len(self.b) else 0
+
+        def range(self, lo, hi):
+            v = self.b[self.i][1] if self.i < len(self.b) else 1
+            self.i += 1
+            return v
+
+    class C:
+        bad = False
+
+        def stat(self, *a):
+            pass
+
+        def violation(self, what, rp, **kw):
+            print(what)
+            self.bad = True
+    c = C()
+    a, b = r["a"], r["b"]
+    interleaved_case(c, FixedRng(r["bursts"]), (a["pattern"], a["text"], a["bytes"], a["cast"], a["chunk"]),
+                     (b["pattern"], b["text"], b["bytes"], b["cast"], b["chunk"]), None)
+    print("REPRODUCED" if c.bad else "not reproduced")
+    return 1 if c.bad else 0
+
+
+# ----------------------------------------------------------------------------- large inputs, default chunk
+def _big(r, small):
+    """mostly short, now and then longer than the default chunk of 2**16"""
+    return r.range(66000, 70000) if r.below(1000) < 2 else r.range(0, small)
+
+
+LARGE_FORMATS = [
+    (LINE_RX, lambda r, i: "rec %d %s" % (i, "x" * _big(r, 200))),
+    # (no line longer than a chunk here: an unterminated tail makes `[^\n]*\n` quadratic in the `re` engine)
+    (CONT_RX, lambda r, i: "rec %d" % i + "".join("\n cont %s" % ("y" * r.range(0, 200)) for _ in range(r.below(4)))),
+    (r"(?P<n>\d+) (?P<lvl>[A-Z]+) (?P<msg>[^\n]*(?:\n\t[^\n]*)*)\n",
+     lambda r, i: "%d %s %s" % (i, r.choice(["INFO", "ERROR"]), "m" * r.range(0, 50)
+                                + "".join("\n\t" + "t" * _big(r, 300) for _ in range(r.below(3))))),
+]
+
+
+def large_text(sub):
+    """the generated input of one large case, a function of its sub-seed alone (so that a replay can rebuild it)"""
+    r = core.Rng(sub)
+    fi = r.below(len(LARGE_FORMATS))
+    rx_src, rec = LARGE_FORMATS[fi]
+    nrec = r.choice([300, 1500, 4000])
+    text = "\n".join(rec(r, j) for j in range(nrec)) + ("\n" if r.chance(80) else "")
+    is_bytes = r.chance(30)
+    kind = r.choice(["bytesio", "binfile"] if is_bytes else ["stringio", "path", "pathlib"])
+    return rx_src, text, is_bytes, kind, r.range(1000, 70000)
+
+
+def large_run(rx_src, text, is_bytes, kind, k, wd):
+    data = text.encode("utf8") if is_bytes else text
+    pat = rx_src.encode("ascii") if is_bytes else rx_src
+    exp = [m.groupdict() for m in re.compile(pat).finditer(data)]
+    content, fac, path = build_source(kind, data, wd, 0)
+    src = fac()
+    try:
+        kw = {} if k is None else {"chunk": k}
+        got = ("ok", list(parse_fn()(src, pat, **kw)))
+    except Exception as e:  # noqa
+        got = ("err", core.err_kind(e) + ": " + str(e)[:80])
+    finally:
+        close_if_file(src)
+    return data, exp, got
+
+
+def large_stream(ctx, rng, wd, boost):
+    """inputs beyond the default chunk size (2**16): 30 KiB - 1 MiB, now and then a record longer than one chunk,
+    parsed with the DEFAULT chunk (argument omitted) and a few explicit sizes around it; regexes that are proved /
+    known Local (the quadratic domain decision is not run on these)"""
+    n = ctx.n(3, 40) * boost
+    t0 = time.time()
+    for i in range(n):
+        if time.time() - t0 > (15 if ctx.quick else 240):        # a time box, not a verdict
+            ctx.note("large-input stream stopped after %d of %d cases (time box)" % (i, n))
+            break
+        sub = rng.below(1 << 62)
+        rx_src, text, is_bytes, kind, krand = large_text(sub)
+        ctx.case(("large", sub), nontrivial=True)
+        ctx.stat("large_inputs")
+        for k in [None, 65536, 65535, krand, len(text) + 1]:
+            data, exp, got = large_run(rx_src, text, is_bytes, kind, k, wd)
+            ctx.stat("large_parse_calls")
+            if k is None:
+                ctx.stat("default_chunk_calls")
+            if got != ("ok", exp):
+                nbad = next((j for j, (x, y) in enumerate(zip(got[1], exp)) if x != y), min(len(got[1]), len(exp))) \
+                    if got[0] == "ok" else -1
+                ctx.violation("parse(%s, %r%s) on a generated text of %d items (%d records; sub-seed %d): %s"
+                              % (kind, rx_src, "" if k is None else ", chunk=%d" % k, len(data), len(exp), sub,
+                                 got[1] if got[0] == "err" else "yields %d dicts, first difference at record %d" % (len(got[1]), nbad)),
+                              {"stream": "large", "sub": sub, "chunk": k, "pattern": rx_src, "source": kind, "bytes": is_bytes,
+                               "text_len": len(data)})
+                return
+        if wd.n > 50:
+            shutil.rmtree(wd.d, ignore_errors=True)
+            os.makedirs(wd.d, exist_ok=True)
+            wd.n = 0
 
 
 # ----------------------------------------------------------------------------- model stream
@@ -1004,7 +1237,9 @@ def model_stream(ctx, drv, rng, boost):
             reads = [latin(p) if is_bytes else p for p in rd.reads]
             lines.append(("reads %s " % sc) + " ".join(enc(p) for p in reads + [""]))
             meta.append(("reads", sc, data, is_bytes, (k, seed, got)))
-    out = drv.run(lines)
+    out = yield lines
+    if out is None:
+        return
     for (op, sc, data, is_bytes, aux), o in zip(meta, out):
         rx = SCANNER_RX[sc]
         pat = rx.encode() if is_bytes else rx
@@ -1074,17 +1309,18 @@ def report_model_disagreement(ctx, sc, rx, data, is_bytes, k, kind, got, m, whol
 def args_stream(ctx, drv, wd):
     p = wd.file(b"a\nb\n")
     cases = []
+    class ReadNotCallable:
+        read = 5
     for fname, fobj in [("other", object()), ("other", 123), ("other", dict), ("other", None),
+                        ("other", ReadNotCallable()),
                         ("pathStr", p), ("pathLike", pathlib.Path(p)), ("textFile", "open-text"),
                         ("binaryFile", "open-bin")]:
         for cname, cobj in [("dict", {}), ("fn", (lambda g: None)), ("invalid", 123), ("invalid", object())]:
             for pok, pobj in [(1, LINE_RX), (0, 123), (0, object())]:
                 cases.append((fname, fobj, cname, cobj, pok, pobj))
     lines = ["parse %s %s %d %s -" % (f, c, pk, " ".join(enc(x) for x in ["a\nb\n"])) for f, _, c, _, pk, _ in cases]
-    try:
-        out = drv.run(lines)
-    except core.DriverError as e:      # the model does not build against this tree: the oracle part still runs
-        ctx.broke("driver:" + DRIVER, str(e))
+    out = yield lines
+    if out is None:                    # the model does not build against this tree: the oracle part still runs
         out = [None] * len(lines)
     for (fname, fobj, cname, cobj, pok, pobj), o in zip(cases, out):
         binary = fname == "binaryFile"
@@ -1197,9 +1433,17 @@ def roundtrip_once(ctx, rng, wd, fi, msgs, levels, ks_mode):
         ks = list(range(1, n + 2))
     else:
         ks = sorted({1, 2, 3, 7, 64, n, n + 1, 2 ** 16} | {rng.range(1, n + 1) for _ in range(6)})
-    for k in ks:
+    for k in ks + [None]:
         src = path if rng.chance(50) else pathlib.Path(path)
-        got = run_parse(src, rx, k, cast)
+        if k is None:               # the default chunk (argument omitted)
+            try:
+                got = ("ok", list(parse_fn()(src, rx, cast=cast)))
+            except Exception as e:  # noqa
+                got = ("err", core.err_kind(e) + ": " + str(e)[:80])
+            k = 2 ** 16
+            ctx.stat("default_chunk_calls")
+        else:
+            got = run_parse(src, rx, k, cast)
         ctx.stat("roundtrip_parse_calls")
         if got != ("ok", exp):
             ctx.violation("round trip: %d records written with format %r, parsed back with chunk=%d: expected %r…, observed %r…"
@@ -1255,6 +1499,29 @@ def run_corpus(ctx, wd):
 
 
 # ----------------------------------------------------------------------------- run
+def drive_streams(ctx, drv, gens):
+    pending = []
+    for g in gens:
+        try:
+            pending.append((g, next(g)))
+        except StopIteration:
+            pass
+    lines = [l for _, ls in pending for l in ls]
+    try:
+        out = drv.run(lines) if lines else []
+    except core.DriverError as e:
+        ctx.broke("driver:" + DRIVER, str(e))
+        out = None
+    pos = 0
+    for g, ls in pending:
+        part = None if out is None else out[pos:pos + len(ls)]
+        pos += len(ls)
+        try:
+            g.send(part)
+        except StopIteration:
+            pass
+
+
 def run(ctx):
     rng = ctx.rng
     drv = core.Driver(DRIVER)
@@ -1262,17 +1529,14 @@ def run(ctx):
     wd = Workdir()
     try:
         run_corpus(ctx, wd)
-        args_stream(ctx, drv, wd)
-        try:
-            model_stream(ctx, drv, rng.fork("model"), boost)
-        except core.DriverError as e:  # broken tie: reported, and the direct oracle below decides
-            ctx.broke("driver:" + DRIVER, str(e))
-        try:
-            trace_stream(ctx, drv, rng.fork("trace"), wd, boost)
-        except core.DriverError as e:
-            ctx.broke("driver:" + DRIVER, str(e))
+        # the three streams that need the Lean model are generators: they hand over their driver lines, the driver
+        # is started ONCE for all of them, and they go on with its answers (None: the model does not build against
+        # this tree - a broken tie, reported; the direct oracles decide)
+        drive_streams(ctx, drv, [args_stream(ctx, drv, wd), model_stream(ctx, drv, rng.fork("model"), boost),
+                                 trace_stream(ctx, drv, rng.fork("trace"), wd, boost)])
         oracle_stream(ctx, rng.fork("oracle"), wd, boost)
         rt_stream(ctx, rng.fork("roundtrip"), wd, boost)
+        large_stream(ctx, rng.fork("large"), wd, boost)
     finally:
         wd.close()
     seen, uniq = set(), []
@@ -1286,6 +1550,7 @@ def run(ctx):
 def oracle_stream(ctx, rng, wd, boost):
     n = ctx.n(5000, 100000) * boost
     fails = 0
+    prev = None
     for i in range(n):
         rx_src, text, feats = gen_case(rng)
         is_bytes = rng.chance(25)
@@ -1324,6 +1589,10 @@ def oracle_stream(ctx, rng, wd, boost):
                         "chunks": "1..%d" % (len(data) + 1), "cast": cast_spec})
         seed = rng.below(1 << 30)
         fails += judge_case(ctx, rx_src, text, is_bytes, base, cast_spec, ks, wd, seed)
+        this = (rx_src, text, is_bytes, cast_spec, rng.choice(ks))
+        if prev is not None and rng.chance(20):
+            fails += interleaved_case(ctx, rng, prev, this, wd)
+        prev = this
         # a second kind of source on a few chunk sizes
         kind = rng.choice(SOURCES_BYTES[1:] if is_bytes else SOURCES_STR[1:])
         if kind != "short" and "\r" in text:
@@ -1398,6 +1667,20 @@ def replay(ctx, rep):
             bad = got != ("ok", exp)
             print("REPRODUCED" if bad else "not reproduced")
             return 1 if bad else 0
+        if r.get("stream") == "interleaved":
+            return replay_interleaved(r)
+        if r.get("stream") == "large":
+            rx_src, text, is_bytes, kind, _ = large_text(r["sub"])
+            data, exp, got = large_run(rx_src, text, is_bytes, kind, r["chunk"], wd)
+            print("pattern=%r chunk=%r (None = the default) source=%s, generated text of %d items (sub-seed %d): expected %d dicts, observed %s"
+                  % (rx_src, r["chunk"], kind, len(data), r["sub"], len(exp), len(got[1]) if got[0] == "ok" else got))
+            if got[0] == "ok":
+                nbad = next((j for j, (x, y) in enumerate(zip(got[1], exp)) if x != y), None)
+                if nbad is not None:
+                    print("first difference at record %d: expected %r… observed %r…" % (nbad, str(canon(exp[nbad]))[:200], str(canon(got[1][nbad]))[:200]))
+            bad = got != ("ok", exp)
+            print("REPRODUCED" if bad else "not reproduced")
+            return 1 if bad else 0
         if r.get("stream") == "fault":
             class C:  # minimal ctx
                 bad = False
@@ -1463,9 +1746,10 @@ def replay(ctx, rep):
         content, fac, path = build_source(r["source"], data, wd, r.get("seed", 0))
         exp = expected_for(re.compile(pat), content, pure)
         src = fac()
-        got = run_parse(src, pat, k, cast)
+        got = run_parse(src, pat, k, cast, bool(r.get("compiled")))
         close_if_file(src)
-        print("pattern=%r bytes=%s chunk=%d source=%s cast=%s" % (rx_src, is_bytes, k, r["source"], r.get("cast")))
+        print("pattern=%r%s bytes=%s chunk=%d source=%s cast=%s" % (rx_src, " (passed as a compiled pattern)" if r.get("compiled") else "",
+                                                                    is_bytes, k, r["source"], r.get("cast")))
         print("text=%r" % (text,))
         print("in property domain ((R),(P) on this text):", in_domain(re.compile(pat), content)[0])
         print("expected (re.finditer):", canon(exp))
